@@ -4,6 +4,8 @@
 package c01
 
 import (
+	"bytes"
+	"encoding/binary"
 	"fmt"
 	"os"
 	"strings"
@@ -262,6 +264,28 @@ func TestProp(t *testing.T) {
 			}
 		})
 	}
+	// HEIF: the Exif item's offset swept across two 4 KiB reader-buffer boundaries, with and without the item's marker
+	if complete && os.Getenv("VERIF_SKIP_ENUM") == "" {
+		idx := 0
+		for _, marker := range []bool{true, false} {
+			for off := 4040; off <= 8260; off++ {
+				if off == 4160 {
+					off = 8130
+				}
+				idx++
+				if idx%rec.Env.Shards != rec.Env.Shard {
+					continue
+				}
+				c := Case{Req: worker.Req{Entry: "BMFF", Input: heifItemAt(off, marker), K: 3}, Origin: fmt.Sprintf("heif-item-offset-sweep:%d/marker=%v", off, marker)}
+				if f := eval(c); f != nil {
+					if pbt.Report(t, rec, chk.Name, c, f) {
+						complete = false
+						goto done
+					}
+				}
+			}
+		}
+	}
 done:
 	rec.Exhaustive(complete)
 	rec.Extra("worker_restarts", cl.Restarts)
@@ -270,6 +294,36 @@ done:
 	}
 	pbt.Run(t, rec, chk, rec.Env.Pick(envInt("VERIF_C01_N", 12000), 150000), 1)
 	rec.Extra("worker_restarts", cl.Restarts)
+}
+
+// heifItemAt: a minimal HEIF file whose iloc places the Exif item at file offset off inside a 12 KB mdat.
+func heifItemAt(off int, marker bool) []byte {
+	box := func(t string, d []byte) []byte {
+		b := make([]byte, 8, 8+len(d))
+		binary.BigEndian.PutUint32(b, uint32(8+len(d)))
+		copy(b[4:], t)
+		return append(b, d...)
+	}
+	full := func(t string, ver byte, d []byte) []byte { return box(t, append([]byte{ver, 0, 0, 0}, d...)) }
+	infe := func(id byte, typ string) []byte {
+		return full("infe", 2, append(append([]byte{0, id, 0, 0}, typ...), 0))
+	}
+	iloc := make([]byte, 18)
+	iloc[0] = 0x44
+	binary.BigEndian.PutUint16(iloc[2:], 1)
+	binary.BigEndian.PutUint16(iloc[4:], 2)
+	binary.BigEndian.PutUint16(iloc[8:], 1)
+	binary.BigEndian.PutUint32(iloc[10:], uint32(off))
+	binary.BigEndian.PutUint32(iloc[14:], 200)
+	hdlr := full("hdlr", 0, append(append(make([]byte, 4), "pict"...), make([]byte, 13)...))
+	meta := append(append(append(hdlr, full("pitm", 0, []byte{0, 1})...), full("iinf", 0, append([]byte{0, 2}, append(infe(1, "hvc1"), infe(2, "Exif")...)...))...), full("iloc", 0, iloc)...)
+	out := append(box("ftyp", []byte("heic\x00\x00\x00\x00mif1heic")), full("meta", 0, meta)...)
+	body := bytes.Repeat([]byte{0x11}, 12000)
+	out = append(out, box("mdat", body)...)
+	if marker && off+64 < len(out) {
+		copy(out[off:], "\x00\x00\x00\x06Exif\x00\x00II*\x00\x08\x00\x00\x00\x01\x00\x0f\x01\x02\x00\x04\x00\x00\x00abc\x00\x00\x00\x00\x00")
+	}
+	return out
 }
 
 type smallFile struct {
